@@ -7,6 +7,7 @@ import (
 	"os"
 	"path"
 	"path/filepath"
+	"strings"
 	"testing"
 
 	"github.com/oklog/ulid/v2"
@@ -51,8 +52,8 @@ func TestC28(t *testing.T) {
 		run(vt.Case{"proc": c["proc"], "conc": c["conc"], "segs": []int{vt.Int(c["nseg"])}, "pres": []string{vt.Str(c["pre"])},
 			"crashes": c["crashes"], "bseed": rnd.Int63n(1 << 40), "src": "tlc"})
 	}
-	procs := []string{"upload", "ship", "replicate", "delete"}
-	dpres := []string{"complete", "complete+mark", "partial", "partial+mark"}
+	procs := []string{"upload", "upload_prom", "ship", "replicate", "delete"}
+	dpres := []string{"complete", "complete+mark", "partial", "partial+mark", "complete+marks", "partial+marks"}
 	n := vt.Pick(80, 2500)
 	for i := 0; i < n; i++ {
 		proc := procs[rnd.Intn(len(procs))]
@@ -71,7 +72,7 @@ func TestC28(t *testing.T) {
 		for k := rnd.Intn(3); k > 0; k-- {
 			crashes = append(crashes, 1+rnd.Intn(total))
 		}
-		run(vt.Case{"proc": proc, "conc": (proc == "upload" || proc == "ship") && rnd.Intn(2) == 0, "segs": segs, "pres": pres,
+		run(vt.Case{"proc": proc, "conc": (proc == "upload" || proc == "upload_prom" || proc == "ship") && rnd.Intn(2) == 0, "segs": segs, "pres": pres,
 			"crashes": crashes, "bseed": rnd.Int63n(1 << 40), "src": "rand"})
 	}
 }
@@ -100,8 +101,12 @@ func runC28(t *testing.T, tr *vt.Tracer, caseID int64, c vt.Case) {
 	for i, n := range segs {
 		bid := NewULID(uint64(1700000000000+int64(i)*7200000), rnd)
 		al.Add(bid, fmt.Sprintf("b%d", i+1))
+		lbls := ext
+		if proc == "upload_prom" {
+			lbls = nil // a plain Prometheus block: no Thanos external labels (block.Upload would refuse it)
+		}
 		bd, err := CloneBlock(dir, BlockSpec{ID: bid, NSeg: n, MinT: int64(i) * 7200000, MaxT: int64(i+1) * 7200000,
-			Labels: ext, Source: metadata.SidecarSource})
+			Labels: lbls, Source: metadata.SidecarSource})
 		if err != nil {
 			t.Fatal(err)
 		}
@@ -133,12 +138,20 @@ func runC28(t *testing.T, tr *vt.Tracer, caseID int64, c vt.Case) {
 		if err := block.Upload(ctx, logger, inner, bd, metadata.NoneFunc); err != nil {
 			t.Fatal(err)
 		}
-		if pre == "complete+mark" || pre == "partial+mark" {
+		if strings.Contains(pre, "+mark") {
 			if err := block.MarkForDeletion(ctx, logger, inner, ids[i], "verif", prometheus.NewCounter(prometheus.CounterOpts{})); err != nil {
 				t.Fatal(err)
 			}
 		}
-		if pre == "partial" || pre == "partial+mark" {
+		if strings.HasSuffix(pre, "+marks") { // further markers next to the deletion mark (phase 2)
+			if err := block.MarkForNoCompact(ctx, logger, inner, ids[i], metadata.ManualNoCompactReason, "verif", prometheus.NewCounter(prometheus.CounterOpts{})); err != nil {
+				t.Fatal(err)
+			}
+			if err := block.MarkForNoDownsample(ctx, logger, inner, ids[i], metadata.ManualNoDownsampleReason, "verif", prometheus.NewCounter(prometheus.CounterOpts{})); err != nil {
+				t.Fatal(err)
+			}
+		}
+		if strings.HasPrefix(pre, "partial") {
 			if err := inner.Delete(ctx, path.Join(ids[i].String(), MetaFile)); err != nil {
 				t.Fatal(err)
 			}
@@ -168,6 +181,13 @@ func runC28(t *testing.T, tr *vt.Tracer, caseID int64, c vt.Case) {
 		case "upload":
 			for _, bd := range bdirs {
 				if err := block.Upload(ctx, logger, target, bd, metadata.NoneFunc, upOpts...); err != nil {
+					return err
+				}
+			}
+			return nil
+		case "upload_prom":
+			for _, bd := range bdirs {
+				if err := block.UploadPromBlock(ctx, logger, target, bd, metadata.NoneFunc, upOpts...); err != nil {
 					return err
 				}
 			}
